@@ -138,7 +138,8 @@ def schedules(res, done):
 def check(tier, seed):
     from .. import schedule_replay
     info = {}
-    ts = tasks(tier, seed) + schedule_replay.gen_tasks(PID, "hop", tier, info)
+    ts = tasks(tier, seed) + schedule_replay.gen_tasks(PID, "hop", tier, info) \
+        + schedule_replay.gen_tasks(PID, "tf", tier, info, quick_stride=5)
 
     def extra(res, done):
         schedules(res, done)
